@@ -114,6 +114,7 @@ class Archive:
         self.data_end = None
         self.trailing = 0
         self.undecoded = []  # folders whose coders are unsupported
+        self.header_packs = []
 
     def names(self):
         return [m.name for m in self.members]
@@ -521,6 +522,7 @@ def read(image: bytes, password=None, decode_data=True) -> Archive:
         data_limit = hp_start
         hdr = bytes(out)
     arc.header_bytes = hdr
+    arc.header_packs = header_packs  # (start, end) of every packed header stream, relative to the end of the signature header
     # --- Header ---
     t = b.byte()
     if t == K_ARCPROPS:
